@@ -22,6 +22,13 @@ pub(crate) fn get_stem(p: &path::Path) -> Result<&str, MonorailError> {
         )))
 }
 
+// Returns true if `prefix`, already known to be a string prefix of `p`, is `p` itself
+// or one of its ancestor directories; i.e. the match ends on a path component boundary.
+// This guards byte-level trie prefix searches against sibling names such as `app`/`app2`.
+pub(crate) fn is_path_prefix(prefix: &str, p: &str) -> bool {
+    p.len() == prefix.len() || p.as_bytes().get(prefix.len()) == Some(&b'/')
+}
+
 pub(crate) fn contains_file(p: &path::Path) -> Result<(), MonorailError> {
     if p.is_file() {
         return Ok(());
